@@ -14,7 +14,7 @@ RULE = ("(1) exhaustive sweep: every one of the 1,114,112 code points c in the n
         "PythonIdentifier / ClassName / snake_case seam, both field_prefix values; (2) end to end: representatives of every "
         "behavioural class found, in every scope; (3) all unordered pairs of a collision alphabet per scope (model attributes, "
         "operation parameters, schema classes+modules, enum members, operations of one tag, tags) x field_prefix; (4) a component and an inline class of another component deriving the same class name (3 holders x 3 properties x 4 spellings x kinds x order); scopes also include attributes inherited from several allOf parents / one parent, names include renamed reserved names (client, client_query, client_header); non-trivial = "
-        "a sweep chunk, or a document that was generated and whose scope was counted on the AST")
+        "a sweep chunk, or a document that was generated and whose scope was counted on the AST; nested inline objects under delimiter-only property names, parameters split between operation and path item, enum values spelling the positional member names (VALUE_1, 2, -)")
 FLOOR = 0.5
 ASSUMPTIONS = ["str.isidentifier / keyword.iskeyword / unicodedata.normalize('NFKC') decide identifier validity and identity"]
 
